@@ -258,6 +258,12 @@ def run_store(tape, out, fs, root, estore, kind):
             if limited[0] and op in ('kill', 'clear'):
                 op = 'append'
         full = tape.chance('read_back', 1, 2)
+        if zombies and tape.chance('drop_superseded_handles', 1, 3):
+            # a handle that was superseded by pickle+unpickle is released only now, after the
+            # new handle may have changed the length of the file
+            zombies.clear()
+            gc.collect()
+            out.probes['superseded_handle_dropped_late'] += 1
         if array_level:
             total = len(concat(model, f.dtype, f.rshape))
         if op == 'append':
@@ -422,6 +428,8 @@ def run_store(tape, out, fs, root, estore, kind):
             if not report_store(out, store, model, bs, 'op %d %s' % (h.j, op), full):
                 return info
     # final: clean close, standard file, all crash points
+    zombies.clear()
+    gc.collect()
     h.begin('close', [model])
     store.close()
     h.end(flushed=not limited[0])
@@ -469,6 +477,10 @@ def run_pool(tape, out, fs, root, elfi, estore):
 
     for step in range(nops):
         n = len(models[names[0]])
+        if zombies and tape.chance('drop_superseded_pool', 1, 3):
+            zombies.clear()
+            gc.collect()
+            out.probes['superseded_handle_dropped_late'] += 1
         if step == 0:
             op = 'add_batch'
         elif step == 1 and tape.chance('early_flush', 3, 4):
@@ -564,6 +576,8 @@ def run_pool(tape, out, fs, root, elfi, estore):
             if pool.get_batch(n):
                 out.violate('report', 'pool-beyond', where='op %d %s' % (h.j, op))
                 return info
+    zombies.clear()
+    gc.collect()
     h.begin('close', cur())
     pool.close()
     h.end(flushed=True)
